@@ -46,6 +46,14 @@ def cases_to_violations(ctx, summary, mism_path, clause_of):
                                "witness": {"case": m["case"], "observed": m["observed"]}})
 
 
+def offset_date_cases(ctx):
+    """The same date fields read and written through a DateTime carrying an offset (the date is the local one)."""
+    cases = gen_cases(ctx, "Gen_Ops", ctx.pid, 4, cfg="Gen_Ops")
+    mism = ctx.path("mism-off.ndjson")
+    s = harness_json(["replay", "--cases", cases, "--out", mism])
+    cases_to_violations(ctx, s, mism, lambda c: "%s.offset.%s%s" % (ctx.pid, c["op"], ("." + c["f"]) if c.get("f") else ""))
+
+
 def civil_common(ctx):
     """Specification sanity for the calendar + the TLC-generated cycle table."""
     build_harness()
@@ -133,6 +141,7 @@ def c01(ctx):
     mism = ctx.path("mism.ndjson")
     s = harness_json(["replay", "--cases", cases, "--out", mism])
     cases_to_violations(ctx, s, mism, lambda c: "C01." + c["op"][2:])
+    offset_date_cases(ctx)
     ndays = 1 << 32
     ctx.extra["distinct_inputs"] = {"day_numbers": ndays, "triples": r2["clauses"].get("C01.triple_value", {}).get("checked", 0)
                                     + r2["clauses"].get("C01.triple_refused", {}).get("checked", 0),
@@ -141,7 +150,9 @@ def c01(ctx):
     return finish(ctx, rule="every 32-bit day number is swept (as_ymd = TLC-generated cycle table extended by the "
                   "400-year period; from_ymd(as_ymd) gives the day back); from_ymd over year x month 0..13 x day 0..32 "
                   "(all years in thorough, every 97th plus both range ends and years -450..450 in quick); "
-                  "TLC-generated boundary cases replayed; 20k-120k observations (and the table oracle itself) judged by "
+                  "TLC-generated boundary cases replayed, among them every (year, month, day) triple of the boundary years reached through "
+                  "set_year/set_month/set_day from month-end and 29 February receivers, and the date fields read and written through "
+                  "DateTimes carrying 9 offsets whose local date differs from the UTC date; 20k-120k observations (and the table oracle itself) judged by "
                   "TLC against the closed forms. distinct_nontrivial = distinct day numbers swept (each has its own label).",
                   trusted=["harness: table lookup + 400-year extension (re-validated by TLC on every run through "
                            "Trace_Civil 'oracle' events)", "Date::from_timestamp is used to reach a day number"])
@@ -165,10 +176,12 @@ def c02(ctx):
     mism = ctx.path("mism.ndjson")
     s = harness_json(["replay", "--cases", cases, "--out", mism])
     cases_to_violations(ctx, s, mism, lambda c: "C02." + c["op"][2:])
+    offset_date_cases(ctx)
     ctx.distinct = range(1 << 32)
     return finish(ctx, rule="every 32-bit day number: weekday() and day_of_year() against the TLC-generated cycle table; "
                   "format fields w q e eeeeeee D on every 37th day (quick) / every day (thorough); set_day_of_year(0..367) "
-                  "on a date of every 61st year plus edges (quick) / every year (thorough); TLC-generated setter cases; "
+                  "on a date of every 61st year plus edges (quick) / every year (thorough); TLC-generated setter cases, also through "
+                  "DateTimes carrying 9 offsets around year ends (weekday, day_of_year, set_day_of_year in local time); "
                   "sampled observations incl. ww qq DDD ee eeeeeeee judged by TLC. distinct_nontrivial = distinct day numbers swept.",
                   trusted=["harness: table lookup + 400-year extension (re-validated by TLC on every run)",
                            "Date::from_timestamp is used to reach a day number"])
@@ -393,6 +406,9 @@ def c16(ctx):
             return "C16.accepts"
         return "C16.denotes"
     cron_case_violations(ctx, cases, clause)
+    # channel B: random expressions of the full grammar and random edits of them; Trace_Cron judges acceptance
+    # (Cron!Recognize) and, for accepted ones, the denotation through every result of the iterator
+    cron_channel_b(ctx, "C16", "c16", 16 if ctx.thorough else 8, 6000 if ctx.thorough else 900)
     ctx.exhaustive = True
     return finish(ctx, rule="TLC enumerates, per field (others *): every single item of the documented grammar (every value, every "
                   "range a-b incl. a>b, every step 1..max+1, names in all 8 casings, name ranges), all 2-item lists of a reduced item "
@@ -400,26 +416,22 @@ def c16(ctx):
                   "expressions; Cron!Recognize classifies each (accepted with denoted sets / rejected / unspecified) and the "
                   "generator side of the grammar is checked against the recognizer (GRAMMAR = {}). Accepted single-field expressions "
                   "are observed value by value through the real iterator under the pinned clock; multi-field ones by their first five "
-                  "results. distinct_nontrivial = distinct (classification, character-class shape of the expression) pairs.",
+                  "results. Channel B: random expressions over the whole grammar (lists containing *, weekday 7, names, steps, tab and "
+                  "double-space separators), 2 in 5 with one or two random character edits; Trace_Cron judges accept/reject with "
+                  "Cron!Recognize and steps accepted schedules through 2-5 next() calls. distinct_nontrivial = distinct (classification, character-class shape of the expression) pairs.",
                   trusted=["verification hook astrolabe::verif::set_cron_now (pins the clock read by next())",
                            "the membership probe relies on next() returning the following minute when it matches (C17)"])
 
 
-@check("C17")
-def c17(ctx):
-    build_harness()
-    model_check(ctx, "MC_Cron", "MC_Cron_full" if ctx.thorough else "MC_Cron_quick", workers=8, timeout=3000, heap="6g")
-    cases = gen_cases(ctx, "Gen_Cron", "C17", 8, cfg="Gen_Cron")
-    cron_case_violations(ctx, cases, lambda c, o: "C17.history" if o.get("clone") is None else "C17.clone")
-    # channel B: random histories, validated stepwise (the specification carries `last`)
+def cron_channel_b(ctx, prop, mode, shards, per):
+    """channel B: random histories, validated stepwise by Trace_Cron (the specification carries `last`)"""
     from concurrent.futures import ThreadPoolExecutor
-    shards = 16 if ctx.thorough else 8
-    per = 4000 if ctx.thorough else 700
     traces = [ctx.path("cron-%d.ndjson" % k) for k in range(shards)]
     seeds = [ctx.seed * 7919 + k for k in range(shards)]
+    extra = ["--mode", mode] if mode else []
 
     def rec(k):
-        return harness_json(["record-cron", "--out", traces[k], "--n", per], env_extra={"VERIF_SEED": seeds[k]})
+        return harness_json(["record-cron", "--out", traces[k], "--n", per] + extra, env_extra={"VERIF_SEED": seeds[k]})
     with ThreadPoolExecutor(max_workers=8) as ex:
         list(ex.map(rec, range(shards)))
     total, bad = parallel_validate(ctx, "Trace_Cron", traces, jobs=10, timeout=3000)
@@ -432,9 +444,22 @@ def c17(ctx):
                 ctx.distinct.add(("hist", "".join(e["expr"]), tuple(e["start"])))
     for b in bad:
         e = b["event"]
-        ctx.violations.append({"clause": "C17.next" if e["ev"] == "next" else "C17.parse", "class": e["ev"],
+        if e["ev"] == "next":
+            clause = "C17.next" if prop == "C17" else "C16.denotes"
+        else:
+            clause = prop + (".rejects" if b.get("expected") == "err" else ".accepts")
+        ctx.violations.append({"clause": clause, "class": e["ev"],
                                "witness": {"event": e, "expected": b.get("expected"), "clock": b.get("clock"), "last": b.get("last"),
-                                           "n": per, "seeds": seeds}})
+                                           "n": per, "seeds": seeds, "mode": mode}})
+
+
+@check("C17")
+def c17(ctx):
+    build_harness()
+    model_check(ctx, "MC_Cron", "MC_Cron_full" if ctx.thorough else "MC_Cron_quick", workers=8, timeout=3000, heap="6g")
+    cases = gen_cases(ctx, "Gen_Cron", "C17", 8, cfg="Gen_Cron")
+    cron_case_violations(ctx, cases, lambda c, o: "C17.history" if o.get("clone") is None else "C17.clone")
+    cron_channel_b(ctx, "C17", None, 16 if ctx.thorough else 8, 4000 if ctx.thorough else 700)
     return finish(ctx, rule="MC_Cron: every history of (advance clock by d in 7 values, call next) up to depth 3 (5 thorough) over 12 "
                   "schedules x 8 starts, each step asserting match, strict increase and that no matching minute lies in between; "
                   "channel A: TLC-generated histories (16 schedules x 12 starts x 8 (108 thorough) advance sequences) replayed on the "
@@ -454,14 +479,15 @@ def replay_cron(ctx, rp):
         return
     for sd in w["seeds"]:
         t = ctx.path("replay-%d.ndjson" % sd)
-        harness_json(["record-cron", "--out", t, "--n", w["n"]], env_extra={"VERIF_SEED": sd})
+        harness_json(["record-cron", "--out", t, "--n", w["n"]] + (["--mode", w["mode"]] if w.get("mode") else []),
+                     env_extra={"VERIF_SEED": sd})
         evs = [e for e in read_ndjson(t) if e.get("i") == w["event"].get("i")]
         if not evs or any(evs[0].get(k) != w["event"].get(k) for k in ("ev", "d", "expr")):
             continue
         n, bad = validate_trace(ctx, "Trace_Cron", t)
         for b in bad:
             if b["event"].get("i") == w["event"].get("i"):
-                ctx.violations.append({"clause": "C17.next", "class": "next", "witness": b})
+                ctx.violations.append({"clause": rp.get("clause", "C17.next"), "class": b["event"]["ev"], "witness": b})
         return
     raise ToolError("could not locate the recorded history of this replay file")
 
